@@ -50,7 +50,50 @@ def exit_code_tables(ctx, rid):
         if f is None:
             r.undecidable(rid, "%s not found" % fid)
             continue
+        param_map = {}
         cs = [c for c in f.calls() if any(c.name.endswith("::" + g) for g in GETTERS) and "Session" in c.name]
+        if not cs:
+            # the decision may have been moved into a helper whose result `f` returns: follow direct callees (depth ≤ 2)
+            helper = None
+            frontier = [f]
+            for _ in range(2):
+                nxt = []
+                for g in frontier:
+                    for c in g.calls():
+                        h = p.fns.get(c.resolved or "")
+                        if h is None or h.crate != f.crate or h is f:
+                            continue
+                        if any(any(cc.name.endswith("::" + gt) for gt in GETTERS) and "Session" in cc.name for cc in h.calls()):
+                            helper = (h, c, g)
+                        nxt.append(h)
+                frontier = nxt
+                if helper:
+                    break
+            if helper and helper[2] is f:
+                h, hc, _g = helper
+                # `f` must return Ok(<result of the helper>) on every path after the helper call
+                linked = True
+                try:
+                    for pa in explore(f, start=hc.bb):
+                        if pa.end == "ret" and pa.ret is not None:
+                            k = vkey(pa.ret)
+                            if not (k.startswith("Ok(call:%s#" % short(h.id)) or k.startswith("residual(")):
+                                linked = False
+                except TooManyPaths:
+                    linked = False
+                if linked:
+                    r.instance(rid, "%s delegates its exit code to %s" % (fid, short(h.id)), "ok", hc.loc(), nontrivial=False)
+                    # bind the helper's parameters to the caller's argument values (e.g. a `check: bool` parameter)
+                    try:
+                        for pa in explore(f, is_effect=lambda c, _bb=hc.bb: c.bb == _bb, max_paths=50000):
+                            for e in pa.effects:
+                                if e.kind == "call":
+                                    for i, a in enumerate(e.args):
+                                        param_map.setdefault("arg%d" % (i + 1), vkey(a))
+                    except TooManyPaths:
+                        pass
+                    f = h
+                    cs = [c for c in f.calls() if any(c.name.endswith("::" + g) for g in GETTERS) and "Session" in c.name]
         if not cs:
             r.violation(rid, "%s: exit code ignores the session's error flags" % fid,
                         "no call to Session::has_operational_errors / has_parsing_errors / has_diff / has_check_errors",
@@ -78,11 +121,15 @@ def exit_code_tables(ctx, rid):
             v = path.ret
             if v[0] == "agg" and v[2] == "Ok" and v[3] and v[3][0][0] == "k":
                 return v[3][0][1]
+            if v[0] == "k" and isinstance(v[1], int) and not isinstance(v[1], bool):
+                return v[1]     # a helper returning the code itself
             if v[0] == "atom" and v[1].startswith("residual("):
                 return None
             return "dyn:" + vkey(v)
 
-        res = check_table(paths, _getter_atom, spec, outcome, domains)
+        def atom(key, val, _pm=param_map):
+            return _getter_atom(_pm.get(key, key), val)
+        res = check_table(paths, atom, spec, outcome, domains)
         r.cells(rid, res["cells"])
         rows_bad = {}
         for (assign, exp, got, path, unknown) in res["deviations"]:
